@@ -48,6 +48,8 @@ def dump(top):
   D["components"] = sorted(repr(c) for c in top.get_all_components())
   D["signals"] = sorted(repr(x) for x in top._dsl.all_signals)
   D["named_objects"] = sorted(repr(x) for x in top.get_all_object_filter(lambda x: True))
+  D["levels_and_parents"] = sorted((repr(x), getattr(x._dsl, "level", None), repr(x.get_parent_object()) if x is not top else None)
+                                   for x in top.get_all_object_filter(lambda x: True))
   nets = {}
   for w, sigs in top.get_all_value_nets():
     nets[tuple(sorted(nm(x) for x in sigs))] = nm(w) if w is not None else None
@@ -340,6 +342,15 @@ class Chain(Component):
       s.tie = tie[0](k=tie[1]); s.tieo = OutPort(8)
       s.tie.in_ //= 5
       s.tieo //= s.tie.out
+class Outer(Component):
+  def construct(s, classes, ks, lb=None, tie=None):
+    s.in_ = InPort(8); s.out = OutPort(8); s.lbo = OutPort(8); s.tieo = OutPort(8)
+    s.ch = Chain(classes, ks, lb, tie)
+    s.ch.in_ //= s.in_; s.out //= s.ch.out
+    if lb is not None: s.lbo //= s.ch.lbo
+    else: s.lbo //= 0
+    if tie is not None: s.tieo //= s.ch.tieo
+    else: s.tieo //= 0
 """
 
 
@@ -356,13 +367,21 @@ def run_cl2_case(sh, case):
     cls_of = {"RTL": mod.StageRTL, "CL": mod.StageCL}
     extra = {"lb": [rng.choice(["RTL", "CL"]), rng.randrange(1, 9)] if rng.random() < 0.5 else None,
              "tie": [rng.choice(["RTL", "CL"]), rng.randrange(1, 9)] if rng.random() < 0.5 else None}
-    mk = lambda kinds_, ks_, ex: mod.Chain([cls_of[k] for k in kinds_], ks_, **{a: None if v is None else (cls_of[v[0]], v[1]) for a, v in ex.items()})
-    setp = None
-    if rng.random() < 0.3:
+    nested = rng.random() < 0.5           # the chain sits one level below the top: replaced list elements are at depth 2
+    Cls = mod.Outer if nested else mod.Chain
+    pre = "top.ch." if nested else "top."
+    mk = lambda kinds_, ks_, ex: Cls([cls_of[k] for k in kinds_], ks_, **{a: None if v is None else (cls_of[v[0]], v[1]) for a, v in ex.items()})
+    setp = None; wild = None
+    if rng.random() < 0.4:
       setp = (rng.randrange(n), rng.randrange(1, 9))             # set_param on a list element that may be replaced later
+      if rng.random() < 0.6: wild = rng.randrange(1, 9)          # ... after a wildcard default for all stages (the later, exact entry wins)
+    def params(t):
+      if wild is not None: t.set_param(pre + "stage*.construct", k=wild)
+      if setp: t.set_param(f"{pre}stage[{setp[0]}].construct", k=setp[1])
     topA = mk(kinds, ks, extra)
-    if setp: topA.set_param(f"top.stage[{setp[0]}].construct", k=setp[1])
+    params(topA)
     topA.elaborate()
+    chA = topA.ch if nested else topA
     steps = []
     final = list(kinds)
     slots = list(range(n)) + [a for a in ("lb", "tie") if extra[a] is not None]
@@ -372,7 +391,7 @@ def run_cl2_case(sh, case):
       old_k = ks[i] if isinstance(i, int) else extra[i][1]
       if byclass: newv = old_k          # replace_component( old, cls ) constructs cls with the OLD component's arguments
       steps.append((i, newk, newv, "class" if byclass else "object"))
-      target = topA.stage[i] if isinstance(i, int) else getattr(topA, i)
+      target = chA.stage[i] if isinstance(i, int) else getattr(chA, i)
       try:
         if byclass:
           topA.replace_component(target, cls_of[newk])
@@ -384,9 +403,9 @@ def run_cl2_case(sh, case):
         final[i] = newk; ks[i] = newv
       else:
         extra[i] = [newk, newv]
-    W = lambda kind, **kw: sh.violation(kind, dict(kw, original=kinds, steps=steps, final=final, extra=extra, set_param=setp), case=("cl2", case))
+    W = lambda kind, **kw: sh.violation(kind, dict(kw, original=kinds, steps=steps, final=final, extra=extra, set_param=setp, wildcard=wild, nested=nested), case=("cl2", case))
     topB = mk(final, ks, extra)
-    if setp: topB.set_param(f"top.stage[{setp[0]}].construct", k=setp[1])
+    params(topB)
     topB.elaborate()
     da, db = dump(topA), dump(topB)
     for sec in db:
